@@ -69,6 +69,8 @@ CInit(sc) ==
       pend   |-> [c \in 1..NC(sc) |-> {}],        \* slots skipped by a later frame whose handler had
                                                 \* finished: lost, or merely late? (decided later)
       lastSend |-> 0,                           \* instant of the latest client write
+      avail  |-> [c \in 1..NC(sc) |-> [m \in 1..Len(sc.conns[c].msgs) |-> -1]],   \* instant at which the client
+                                                \* had sent the last byte of message m's head
       slots  |-> [c \in 1..NC(sc) |-> SlotsFrom(sc, c - 1, 0)] ]   \* computed once per scenario    \* the client's own socket address (C02)   \* a frame-order violation was already reported
                                                    \* on c: later frame guards would be echoes
 
@@ -154,7 +156,13 @@ Own(sc, default) == IF Fam(sc) \in InputFamilies THEN Fam(sc) ELSE default
 \* events
 
 CSend(s, sc, e) ==
-    [s |-> [s EXCEPT !.sent[e.c + 1] = IF e.to > @ THEN e.to ELSE @, !.lastSend = e.now], v |-> <<>>]
+    [s |-> [s EXCEPT !.sent[e.c + 1] = IF e.to > @ THEN e.to ELSE @, !.lastSend = e.now,
+                     !.avail[e.c + 1] = [m \in DOMAIN @ |-> IF @[m] < 0 /\ sc.conns[e.c + 1].msgs[m].he <= e.to THEN e.now ELSE @[m]]],
+     v |-> <<>>]
+
+\* message m of c and everything in front of it on the connection is an acceptable request without a body:
+\* the connection thread queues it at the very instant its head is complete
+PlainUpTo(sc, c, m) == \A k \in 0..m : M(sc, c, k).cls = "ok" /\ M(sc, c, k).bk = "none" /\ ~M(sc, c, k).exp
 
 \* some complete request is still waiting to be handed to the application
 SomethingQueued(s, sc) ==
